@@ -138,6 +138,8 @@ type Node struct {
 	DataFIFO    []block.NewDataEvent
 	LoopPanics  []string
 	StartErrors []string
+	// NoP2PLoops: StartNode does not start the P2P store polling loops (the caller runs them itself).
+	NoP2PLoops bool
 	// SeqLog records what the real sequencer released and refused, across incarnations (harness side).
 	SeqLog SeqLog
 }
@@ -293,7 +295,7 @@ func (n *Node) StartNode() error {
 	n.Reaper = block.NewReaper(ctx, exec, n.Seq, n.W.Genesis.ChainID, n.Cfg.BlockTime, logger, n.MainKV)
 	n.Reaper.SetManager(m)
 	n.Alive = true
-	if !n.Cfg.Aggregator {
+	if !n.Cfg.Aggregator && !n.NoP2PLoops {
 		n.startP2PLoops()
 	}
 	return nil
